@@ -138,6 +138,7 @@ package notify
 //@   after call NewDedupStage assume res0 != nil
 //@   after call NewRetryStage assume res0 != nil
 //@   after call NewSetNotifiesStage assume res0 != nil
+//@   assigns nothing
 
 // the fan-out hands every integration the same batch and returns it unchanged (goroutines abstracted)
 //@ func (FanoutStage).Exec
@@ -166,3 +167,46 @@ package notify
 //@   ensures [failure] statusCode / 100 != 2 ==> result1 != nil
 //@   ensures [retry-iff] statusCode / 100 != 2 ==> result0 == (statusCode / 100 == 5 || (exists i int :: 0 <= i && i < len(r.RetryCodes) && r.RetryCodes[i] == statusCode))
 //@   noeffect CustomDetailsFunc readAll
+
+// ---- C02 / C03: the mute stage (silencer and inhibitor are both wrapped in one). Every alert of the batch is put
+// to the muter; exactly the alerts the muter did not mute are passed on, each of them an alert of the batch.
+// The verdict is named by the label set it was asked about (one stage execution; the muter is assumed to answer
+// the same for the same label-set object within it - sequential execution).
+//@ uf muteVerdict(model.LabelSet) bool
+//@ func (*MuteStage).Exec
+//@   props C02 C03
+//@   nosafe
+//@   requires n != nil
+//@   assumes forall i int :: 0 <= i && i < len(alerts) ==> alerts[i] != nil
+//@   after call Muter).Mutes assume res0 == muteVerdict(arg2)
+//@   at call Muter).Mutes assert [asks-about-each-alert] arg0 == n.muter && rangeindex1 + 1 >= 0 && rangeindex1 + 1 < len(alerts) && arg2 == alerts[rangeindex1 + 1].Labels
+//@   ensures [no-muted-alert-passes] forall k int :: 0 <= k && k < len(result1) ==> result1[k] != nil && !muteVerdict(result1[k].Labels)
+//@   ensures [every-unmuted-alert-passes] forall i int :: 0 <= i && i < len(alerts) && !muteVerdict(alerts[i].Labels) ==> alerts[i] in elems(result1)
+//@   ensures [only-alerts-of-the-batch] forall k int :: 0 <= k && k < len(result1) ==> result1[k] in elems(alerts)
+//@   ensures [never-fails] result2 == nil && count("Muter).Mutes") == len(alerts)
+//@   loop 1 invariant rangeindex < len(alerts) && count("Muter).Mutes") == rangeindex + 1 && (filtered == nil || fresh(filtered)) && (muted == nil || fresh(muted)) && (filtered == nil || base(filtered) != base(muted))
+//@   loop 1 invariant forall k int :: 0 <= k && k < len(filtered) ==> filtered[k] != nil && !muteVerdict(filtered[k].Labels) && (filtered[k] in elems(alerts))
+//@   loop 1 invariant forall i int :: 0 <= i && i <= rangeindex && !muteVerdict(alerts[i].Labels) ==> alerts[i] in elems(filtered)
+//@   noeffect Muter).Mutes Tracer).Start hashAlert MutedAlerts WithMutedAlerts
+
+// ---- C02 / C03 (+C15): stage order of every receiver pipeline: gossip settle, inhibitor mute stage, time-active,
+// time-mute, silencer mute stage, and only then the receiver stage (dedup / delivery / log).
+//@ spec pipe(r RoutingStage, name string) MultiStage = unbox(r[name], MultiStage)
+//@ func (*PipelineBuilder).New
+//@   props C02 C03 C15 C20
+//@   nosafe
+//@   requires pb != nil && silencer != nil && inhibitor != nil
+//@   ensures [one-pipeline-per-receiver] forall name string :: (name in receivers) ==> name in result
+//@   ensures [mute-before-delivery] forall name string :: (name in result) ==> typeis(result[name], MultiStage) && len(pipe(result, name)) == 6
+//@             && typeis(pipe(result, name)[1], *MuteStage) && unbox(pipe(result, name)[1], *MuteStage) == first("notify.NewMuteStage") && typeis(first("notify.NewMuteStage").muter, *inhibit.Inhibitor) && unbox(first("notify.NewMuteStage").muter, *inhibit.Inhibitor) == inhibitor
+//@             && typeis(pipe(result, name)[4], *MuteStage) && unbox(pipe(result, name)[4], *MuteStage) == ret("notify.NewMuteStage") && typeis(ret("notify.NewMuteStage").muter, *silence.Silencer) && unbox(ret("notify.NewMuteStage").muter, *silence.Silencer) == silencer
+//@             && typeis(pipe(result, name)[2], *TimeActiveStage) && typeis(pipe(result, name)[3], *TimeMuteStage)
+//@   ensures [delivery-last] forall name string :: (name in result) ==> !typeis(pipe(result, name)[5], *MuteStage) && !typeis(pipe(result, name)[5], *TimeMuteStage) && !typeis(pipe(result, name)[5], *TimeActiveStage)
+//@   loop 1 invariant fresh(rs) && count("notify.NewMuteStage") == 2 && first("notify.NewMuteStage") != ret("notify.NewMuteStage") && typeis(first("notify.NewMuteStage").muter, *inhibit.Inhibitor) && unbox(first("notify.NewMuteStage").muter, *inhibit.Inhibitor) == inhibitor && typeis(ret("notify.NewMuteStage").muter, *silence.Silencer) && unbox(ret("notify.NewMuteStage").muter, *silence.Silencer) == silencer
+//@   loop 1 invariant forall name string :: (name in rs) == (name in visited)
+//@   loop 1 invariant forall name string :: (name in rs) ==> typeis(rs[name], MultiStage) && len(pipe(rs, name)) == 6 && allocated(pipe(rs, name))
+//@   loop 1 invariant forall name string :: (name in rs) ==> typeis(pipe(rs, name)[1], *MuteStage) && unbox(pipe(rs, name)[1], *MuteStage) == first("notify.NewMuteStage")
+//@   loop 1 invariant forall name string :: (name in rs) ==> typeis(pipe(rs, name)[4], *MuteStage) && unbox(pipe(rs, name)[4], *MuteStage) == ret("notify.NewMuteStage")
+//@   loop 1 invariant forall name string :: (name in rs) ==> typeis(pipe(rs, name)[2], *TimeActiveStage) && typeis(pipe(rs, name)[3], *TimeMuteStage)
+//@   loop 1 invariant forall name string :: (name in rs) ==> !typeis(pipe(rs, name)[5], *MuteStage) && !typeis(pipe(rs, name)[5], *TimeMuteStage) && !typeis(pipe(rs, name)[5], *TimeActiveStage)
+//@   noeffect InitializeFor
